@@ -5,6 +5,6 @@ TIER=${1:-quick}
 ids=$(python3 -c "import json;print(' '.join(c['property_id'] for c in json.load(open('MANIFEST.json'))['checks']))")
 for id in $ids; do
   ( out=$(./check $id --tier $TIER 2>&1); rc=$?; echo "$id exit=$rc $(echo "$out" | tail -1 | cut -c1-170)" ) &
-  while [ $(jobs -r | wc -l) -ge 4 ]; do sleep 0.5; done
+  while [ $(jobs -r | wc -l) -ge 3 ]; do sleep 0.5; done
 done
 wait
